@@ -1,6 +1,6 @@
 (* C07 — ensemble members are isolated; controls are shared exactly per scenario tree. *)
 From Coq Require Import ZArith QArith List Bool Arith Permutation.
-From RT Require Import Xq Interp Expr Transcribe Transcribe_proofs ControlTree ControlTree_proofs ControlTree_coincide.
+From RT Require Import Xq Interp Expr Transcribe Transcribe_proofs ControlTree ControlTree_proofs ControlTree_coincide Delay Delay_iso.
 Import ListNotations.
 Open Scope Q_scope.
 
@@ -88,3 +88,10 @@ Example C07_coinciding_nonvacuous :
   children 3 d [0; 1; 2]%nat = [[0; 2]; [1]; []]%nat.
 Proof. vm_compute. reflexivity. Qed.
 Print Assumptions C07_coinciding_nonvacuous.
+
+(* ... and so are the delayed-feedback rows: member m's rows are built from member m's own parameters (delay
+   durations included), constant inputs and history *)
+Theorem C07_delay_rows_isolated :
+  forall P P' m X d, same_shape P P' -> same_member_data m P P' -> delay_rows P X m d = delay_rows P' X m d.
+Proof. exact delay_rows_isolated. Qed.
+Print Assumptions C07_delay_rows_isolated.
